@@ -145,24 +145,24 @@ type vC04Spec struct {
 }
 
 type vC04Req struct {
-	idx                int
-	method, pattern    string
-	listed, acrm       bool
-	ident              string // user name presented (or "" / "nobody")
-	pass               string
-	placement          string // none basic bearer-up bearer-token query
-	ipClass            int
-	qpath              string
-	hasPath            bool
-	marker             string
-	class              string
-	effUser, effPass   string
-	effToken           string
-	url                string
-	status             int
-	body               []byte
-	err                string
-	rawQuery           string
+	idx              int
+	method, pattern  string
+	listed, acrm     bool
+	ident            string // user name presented (or "" / "nobody")
+	pass             string
+	placement        string // none basic bearer-up bearer-token query
+	ipClass          int
+	qpath            string
+	hasPath          bool
+	marker           string
+	class            string
+	effUser, effPass string
+	effToken         string
+	url              string
+	status           int
+	body             []byte
+	err              string
+	rawQuery         string
 }
 
 var vC04Methods = []string{"GET", "POST", "PATCH", "DELETE", "PUT", "OPTIONS", "HEAD"}
@@ -501,7 +501,7 @@ func vC04Run(t *testing.T, sp vC04Spec, mgr *auth.Manager) {
 		for _, o := range vC04Oracles {
 			ar := &auth.Request{Action: o.Action, Query: q.rawQuery,
 				Credentials: &auth.Credentials{User: q.effUser, Pass: q.effPass, Token: q.effToken},
-				IP: net.ParseIP(vC04IPs[q.ipClass]), EnableAskCredentials: true}
+				IP:          net.ParseIP(vC04IPs[q.ipClass]), EnableAskCredentials: true}
 			key := o.Act
 			if o.WithPath {
 				ar.Path = q.qpath
